@@ -12,7 +12,8 @@ import (
 	sdk "github.com/cosmos/cosmos-sdk/types"
 	"pgregory.net/rapid"
 
-	"github.com/cosmos/cosmos-sdk/crypto/keys/ed25519"
+	"github.com/cosmos/cosmos-sdk/crypto/keys/secp256k1"
+	cryptotypes "github.com/cosmos/cosmos-sdk/crypto/types"
 
 	opchildtypes "github.com/initia-labs/OPinit/x/opchild/types"
 
@@ -28,8 +29,8 @@ type valWorld struct {
 	l2        *henv.L2
 	admin     henv.User
 	executors []henv.User
-	ops       []sdk.ValAddress   // operator addresses
-	keys      []*ed25519.PrivKey // consensus keys
+	ops       []sdk.ValAddress      // operator addresses
+	keys      []cryptotypes.PrivKey // consensus keys
 	// spellUpper, when set, decides per addition whether the operator is spelled in upper case
 	spellUpper func() bool
 	// model, from observed successes
@@ -52,6 +53,9 @@ type valWorld struct {
 func (w *valWorld) logf(f string, a ...interface{}) { w.log = append(w.log, fmt.Sprintf(f, a...)) }
 func (w *valWorld) history() string                 { return strings.Join(w.log, "\n") }
 
+// valWorldSecp: the next world's consensus parameters admit secp256k1 keys too and every second key is one.
+var valWorldSecp bool
+
 func newValWorld(nGenesis int, maxVals uint32, histN uint32, genesisPowers ...int64) (*valWorld, error) {
 	w := &valWorld{pow: map[string]int64{}, bonded: map[string]int{}, pending: map[string]int{}, zeroed: map[string]bool{}, keyOf: map[string]int{}, recorded: map[int64]string{}, pruned: map[int64]bool{}, touched: map[string]int{},
 		maxVals: maxVals, histN: histN, histNever0: histN > 0}
@@ -61,11 +65,19 @@ func newValWorld(nGenesis int, maxVals uint32, histN uint32, genesisPowers ...in
 	for i := 0; i < nValOps; i++ {
 		w.ops = append(w.ops, sdk.ValAddress(henv.MakeUser(fmt.Sprintf("val-op-%d", i)).Addr))
 	}
+	keyTypes := []string{"ed25519"}
+	if valWorldSecp {
+		keyTypes = append(keyTypes, "secp256k1") // a chain whose consensus parameters admit both key types
+	}
 	for i := 0; i < nValKeys+2; i++ {
+		if valWorldSecp && i%2 == 1 {
+			w.keys = append(w.keys, secp256k1.GenPrivKeyFromSecret([]byte(fmt.Sprintf("verif-cons-secp-%d", i))))
+			continue
+		}
 		w.keys = append(w.keys, henv.MakeConsKey(fmt.Sprintf("k%d", i)))
 	}
 	l2 := w.l2
-	l2.Ctx = l2.Ctx.WithConsensusParams(cmtproto.ConsensusParams{Validator: &cmtproto.ValidatorParams{PubKeyTypes: []string{"ed25519"}}})
+	l2.Ctx = l2.Ctx.WithConsensusParams(cmtproto.ConsensusParams{Validator: &cmtproto.ValidatorParams{PubKeyTypes: keyTypes}})
 	gs := opchildtypes.DefaultGenesisState()
 	gs.Params.Admin = w.admin.Str
 	gs.Params.BridgeExecutors = []string{w.executors[0].Str}
@@ -354,7 +366,14 @@ func (w *valWorld) endBlock() ([]abci.ValidatorUpdate, error) {
 func renderUpdates(us []abci.ValidatorUpdate) string {
 	var xs []string
 	for _, u := range us {
-		xs = append(xs, fmt.Sprintf("%X:%d", u.PubKey.GetEd25519()[:4], u.Power))
+		kb := u.PubKey.GetEd25519()
+		if kb == nil {
+			kb = u.PubKey.GetSecp256K1()
+		}
+		if len(kb) < 4 {
+			kb = append(kb, 0, 0, 0, 0)
+		}
+		xs = append(xs, fmt.Sprintf("%X:%d", kb[:4], u.Power))
 	}
 	return strings.Join(xs, " ")
 }
@@ -485,6 +504,34 @@ func (w *valWorld) runBlock(rt *rapid.T) error {
 	}
 	w.l2.NextBlock(time.Second * 5)
 	return nil
+}
+
+// restart exports the L2 between two blocks and starts a new chain from that genesis (through JSON). The validator
+// updates returned by InitGenesis are what the new chain's consensus engine starts with; historical entries are
+// not part of the genesis, so the model forgets them.
+func (w *valWorld) restart() error {
+	old := w.l2
+	var execs []string
+	for _, e := range w.executors {
+		execs = append(execs, e.Str)
+	}
+	n := henv.NewL2(henv.L2Options{Admin: w.admin.Str, Executors: execs})
+	n.Ctx = n.Ctx.WithBlockHeight(old.Ctx.BlockHeight()).WithBlockTime(old.Ctx.BlockTime()).WithBlockHeader(old.Ctx.BlockHeader()).WithConsensusParams(old.Ctx.ConsensusParams())
+	n.AK.InitGenesis(n.Ctx, *old.AK.ExportGenesis(old.Ctx))
+	n.BK.InitGenesis(n.Ctx, old.BK.ExportGenesis(old.Ctx))
+	var gs opchildtypes.GenesisState
+	n.Enc.Marshaler.MustUnmarshalJSON(old.Enc.Marshaler.MustMarshalJSON(old.K.ExportGenesis(old.Ctx)), &gs)
+	updates := n.K.InitGenesis(n.Ctx, &gs)
+	if err := n.ApplyUpdates(updates); err != nil {
+		return fmt.Errorf("the validator updates returned by InitGenesis after a restart are rejected by the consensus engine: %w", err)
+	}
+	if a, b := henv.RenderPowerMap(old.MirrorMap()), henv.RenderPowerMap(n.MirrorMap()); a != b {
+		return fmt.Errorf("after a restart from the exported genesis the consensus engine starts with {%s}, it held {%s}", b, a)
+	}
+	w.l2 = n
+	w.recorded, w.pruned = map[int64]string{}, map[int64]bool{}
+	w.logf("restart from the exported genesis at height %d, engine set {%s}", n.Ctx.BlockHeight(), henv.RenderPowerMap(n.MirrorMap()))
+	return w.invariants()
 }
 
 // setParamsDirect changes max validators / retention between blocks (authority message, must succeed).
